@@ -4,7 +4,11 @@
 // Verification hooks for property C19 (add-only; compiled only with -tags verif).
 package ipdict
 
-import "sort"
+import (
+	"sort"
+
+	"github.com/bfenetworks/bfe/bfe_util/hash_set"
+)
 
 // VerifPair is a copy of one (startIP, endIP) table entry.
 type VerifPair struct{ Start, End []byte }
@@ -31,4 +35,30 @@ func (ipItems *IPItems) VerifSortSteps() (s1 []VerifPair, mergedNum int, s2 []Ve
 	sort.Sort(ipItems.items)
 	s2 = verifSnap(ipItems.items)
 	return
+}
+
+// VerifNewGatedIPItems is NewIPItems, except that the single-address set calls gate() each time it hashes a key.
+// IPTable.Search hashes the probe after it took its snapshot of the table and before it looks at the pairs, so the
+// harness can run an Update at exactly that point (deterministic "swap while searching").
+func VerifNewGatedIPItems(maxSingleIPNum int, maxPairIPNum int, gate func()) (*IPItems, error) {
+	ipItems, err := NewIPItems(maxSingleIPNum, maxPairIPNum)
+	if err != nil {
+		return nil, err
+	}
+	ipItems.ipSet, err = hash_set.NewHashSet(maxSingleIPNum+1, IP_LENGTH, true, func(b []byte) uint64 {
+		gate()
+		return Hash(b)
+	})
+	return ipItems, err
+}
+
+// VerifTryUpdate switches the items like Update, but gives up (false) when the table lock is held, so that a gate
+// running inside Search cannot deadlock against an implementation that searches under the lock.
+func (t *IPTable) VerifTryUpdate(items *IPItems) bool {
+	if !t.lock.TryLock() {
+		return false
+	}
+	t.ipItems = items
+	t.lock.Unlock()
+	return true
 }
